@@ -22,6 +22,11 @@ import (
 // the server emits them; Read blocks (mcrt.WaitUntil) until a segment is due, the server has closed, the read
 // deadline has passed or the client closed the connection. Compared with PipeConns + a server thread this removes one
 // thread and ~15 scheduling points per exchange, which is what makes 3-caller PipelineClient systems explorable.
+//
+// Slow-peer fault dimension (off unless c04vServer.wstall > 0, so systems that do not set it are unchanged): every Write
+// is an environment choice mcrt.Env(2): alternative 1 (one deviation) = the peer's receive window is full, the Write
+// blocks on the virtual clock for wstall (or until the write deadline: then half of the bytes were taken and a timeout
+// error is returned; or until the client closes the connection). With it, virtual time passes INSIDE a request write.
 
 type c04vSeg struct {
 	at   time.Duration // virtual time (since mcrt.Base) at which the server emits the bytes
@@ -29,7 +34,8 @@ type c04vSeg struct {
 }
 
 type c04vServer struct {
-	beh   func(id string) c04beh
+	beh    func(id string) c04beh
+	wstall time.Duration // >0: any Write may block for that long (environment choice, one deviation each)
 	seen  [][]string // per connection: request ids whose bytes reached the wire, in order
 	conns []*c04vConn
 }
@@ -44,6 +50,7 @@ type c04vConn struct {
 	dead    bool          // server stopped emitting (closed or stalled for good): later requests are received but not answered
 	closed  bool          // closed by the client
 	rdl     time.Duration // read deadline, <0 none
+	wdl     time.Duration // write deadline, <0 none (only consulted when the slow-peer dimension is on)
 	stray   int           // bytes written that do not parse as a request (harness invariant: stays 0)
 }
 
@@ -65,7 +72,7 @@ func c04vArm(t time.Duration) {
 }
 
 func (s *c04vServer) dial() *c04vConn {
-	c := &c04vConn{s: s, k: len(s.conns), closeAt: -1, rdl: -1}
+	c := &c04vConn{s: s, k: len(s.conns), closeAt: -1, rdl: -1, wdl: -1}
 	s.conns = append(s.conns, c)
 	s.seen = append(s.seen, nil)
 	return c
@@ -78,6 +85,38 @@ func (c *c04vConn) Write(p []byte) (int, error) {
 	if c.closeAt >= 0 && c.closeAt <= c04vNow() {
 		return 0, errC04vClosed // the server has closed the connection
 	}
+	if c.s.wstall > 0 && len(p) > 0 {
+		if c.wdl >= 0 && c.wdl <= c04vNow() {
+			return 0, c04vTimeout{}
+		}
+		if mcrt.Env(2, "peer-window-full") == 1 {
+			mcrt.Covered("write-stalled")
+			until := c04vNow() + c.s.wstall
+			c04vArm(until)
+			mcrt.WaitUntil("vconn.write", func() bool {
+				now := c04vNow()
+				return c.closed || now >= until || (c.wdl >= 0 && c.wdl <= now)
+			})
+			if c.closed {
+				return 0, errC04vClosed
+			}
+			if c04vNow() < until { // the write deadline came first: the peer has taken only a part of the bytes
+				mcrt.Covered("write-stalled-past-write-deadline")
+				n := len(p) / 2
+				c.deliver(p[:n])
+				return n, c04vTimeout{}
+			}
+			if c.closeAt >= 0 && c.closeAt <= c04vNow() {
+				return 0, errC04vClosed
+			}
+		}
+	}
+	c.deliver(p)
+	return len(p), nil
+}
+
+// deliver hands bytes to the server model: every request completed by them is answered according to its behaviour.
+func (c *c04vConn) deliver(p []byte) {
 	c.in = append(c.in, p...)
 	for len(c.in) > 0 {
 		rd := bytes.NewReader(c.in)
@@ -90,7 +129,6 @@ func (c *c04vConn) Write(p []byte) (int, error) {
 		c.in = c.in[used:]
 		c.handle(string(req.Header.Peek("X-Id")))
 	}
-	return len(p), nil
 }
 
 func (c *c04vConn) handle(id string) {
@@ -177,7 +215,20 @@ func (c *c04vConn) SetReadDeadline(t time.Time) error {
 	return nil
 }
 
-func (c *c04vConn) SetWriteDeadline(time.Time) error { return nil } // writes never block
-func (c *c04vConn) SetDeadline(t time.Time) error    { return c.SetReadDeadline(t) }
-func (c *c04vConn) LocalAddr() net.Addr              { return &net.TCPAddr{} }
-func (c *c04vConn) RemoteAddr() net.Addr             { return &net.TCPAddr{} }
+// SetWriteDeadline: writes only block under the slow-peer dimension (wstall > 0); without it this is a no-op as before.
+func (c *c04vConn) SetWriteDeadline(t time.Time) error {
+	if c.s.wstall <= 0 || t.IsZero() {
+		c.wdl = -1
+		return nil
+	}
+	c.wdl = t.Sub(mcrt.Base)
+	c04vArm(c.wdl)
+	return nil
+}
+
+func (c *c04vConn) SetDeadline(t time.Time) error {
+	c.SetWriteDeadline(t)
+	return c.SetReadDeadline(t)
+}
+func (c *c04vConn) LocalAddr() net.Addr  { return &net.TCPAddr{} }
+func (c *c04vConn) RemoteAddr() net.Addr { return &net.TCPAddr{} }
